@@ -353,7 +353,7 @@ class DataFile:
           ).to_temporal_offset()
         LOGGER.debug("GSI TCP: %s", self.gsi.TCP)
       except ValueError:
-        LOGGER.error("Invalid TCP value: %s", self.gsi.tcp)
+        LOGGER.error("Invalid TCP value: %s", self.gsi.TCP)
         self.start_offset = 0
     else:
       try:
